@@ -215,7 +215,7 @@ func (b *baseActor) PostInboxScheme(c context.Context, w http.ResponseWriter, r 
 	if !ok {
 		return true, fmt.Errorf("activity streams value is not an Activity: %T", asValue)
 	}
-	if activity.GetJSONLDId() == nil {
+	if id := activity.GetJSONLDId(); id == nil || id.Get() == nil {
 		w.WriteHeader(http.StatusBadRequest)
 		return true, nil
 	}
